@@ -262,10 +262,13 @@ def select__union_operator(self: XPathToken, context: ta.ContextType = None) \
     if context is None:
         raise self.missing_context()
 
-    results = {item for k in range(2) for item in self[k].select(copy(context))}
-    if any(not isinstance(x, XPathNode) for x in results):
+    items = [item for k in range(2) for item in self[k].select(copy(context))]
+    if any(not isinstance(x, XPathNode) for x in items):
+        # checked before building the set: other items can be unhashable or not comparable
         raise self.error('XPTY0004', 'only XPath nodes are allowed')
-    elif self.concatenated:
+
+    results = set(items)
+    if self.concatenated:
         yield from cast(set[XPathNode], results)
     else:
         yield from cast(list[XPathNode], sorted(results, key=node_position))
@@ -389,7 +392,7 @@ def select__descendant_path(self: XPathToken, context: ta.ContextType = None) \
         for _ in context.iter_descendants():
             for result in self[0].select(context):
                 if not isinstance(result, XPathNode):
-                    items.add(result)
+                    yield result  # an atomic value or a function item, as in the two operands case
                 elif result in items:
                     pass
                 elif isinstance(result, ElementNode):
